@@ -748,7 +748,9 @@ func (e *env) monitorCSV(cs *csvCase, rows []srow, data []byte, status int) {
 	// the BOM is stripped AFTER tokenisation: a quoted first header field behind a BOM is not
 	// recognised as quoted, so a delimiter inside it splits the header and every column shifts;
 	// whatever the monitors see in such a file is reported under one key
-	bomQuoted := cs.bom && len(cs.junk) == 0 && !cs.blankJunk && len(cs.header) > 0 && needsQuote(cs.header[0], cs.delim)
+	// (only while the source still tokenises with the BOM in place; once it strips the BOM first the
+	// file is an ordinary one and every finding keeps its own key)
+	bomQuoted := !bomFirst && cs.bom && len(cs.junk) == 0 && !cs.blankJunk && len(cs.header) > 0 && needsQuote(cs.header[0], cs.delim)
 	c := &failer{c: e.c, override: ""}
 	if bomQuoted {
 		c.override = "value-lossy:bom-before-quoted-header"
